@@ -1,5 +1,10 @@
 package main
 
+import (
+	"go/ast"
+	"go/types"
+)
+
 // freshCtx gives every function (and lemma) its own declaration context, so that
 // sorts and uninterpreted functions declared under one integer encoding (bv / Int)
 // never leak into a VC generated under the other. Abstractions and trusted-base
@@ -11,4 +16,33 @@ func (e *Engine) freshCtx() *Ctx {
 		c.trusted = e.ctx.trusted
 	}
 	return c
+}
+
+// globalInitType returns the pointer type *T of a package-level variable initialised with &T{...}.
+func (e *Engine) globalInitType(vr *types.Var) types.Type {
+	for _, p := range e.pkgs {
+		if p.Types != vr.Pkg() {
+			continue
+		}
+		for _, f := range p.Syntax {
+			for _, d := range f.Decls {
+				gd, ok := d.(*ast.GenDecl)
+				if !ok {
+					continue
+				}
+				for _, sp := range gd.Specs {
+					vs, ok := sp.(*ast.ValueSpec)
+					if !ok {
+						continue
+					}
+					for i, n := range vs.Names {
+						if p.TypesInfo.Defs[n] == vr && i < len(vs.Values) {
+							return p.TypesInfo.TypeOf(vs.Values[i])
+						}
+					}
+				}
+			}
+		}
+	}
+	return nil
 }
